@@ -77,7 +77,7 @@ def run(ctx):
         import random
         random.Random(ctx.seed).shuffle(more)
         ctx.cov["bounds"]["concurrent_two_command_scenarios_enumerated"] = len(more)
-        conc += more[:2500]
+        conc += more[:600]
     if not conc:
         raise vlib.ToolingError("TLC printed no concurrent scenarios")
     cp = ctx.path("rp_conc.ndjson")
